@@ -712,6 +712,10 @@ fn minimise(env: &Env, ctx: &Ctx, s: &Scenario, f: &Fault, v: &Violation) -> (Sc
     let mut best = s.clone();
     let mut bestf = f.clone();
     let mut budget = 60usize;
+    if v.oracle == "X6-terminates" {
+        // every re-execution of a hang costs a full timeout: report it as found
+        return (best, bestf);
+    }
     // 1. fewer input lines (stdin or child stdout), keeping whole lines
     let shrink_blob = |b: &Blob, keep: &[usize]| -> Blob {
         let lines: Vec<&[u8]> = b.0.split_inclusive(|c| *c == b'\n').collect();
